@@ -98,6 +98,15 @@ def _special_values(rng, arr):
     return a
 
 
+def _precision_value(rng):
+    """Mostly six orders of magnitude around one; sometimes far in either tail or exactly at a round bound (a posterior
+    sample is a value object: nothing restricts the precision it carries to what a sampler with data would produce)."""
+    u = float(rng.random())
+    if u < 0.85:
+        return 10 ** rng.uniform(-3, 3)
+    return float(rng.choice([1e-12, 3e-7, 1e-6, 1e6, 2.5e6, 1e9, 1e12]))
+
+
 def make_sdc_theta(rng, n_samp, n_treat, D, scale=1.0, precision=None):
     from batchie.models.sparse_combo import SparseDrugComboMCMCSample
 
@@ -105,7 +114,7 @@ def make_sdc_theta(rng, n_samp, n_treat, D, scale=1.0, precision=None):
         W=_special_values(rng, rng.normal(0, scale, (n_samp, D))), W0=_special_values(rng, rng.normal(0, scale, (n_samp,))),
         V2=_special_values(rng, rng.normal(0, scale, (n_treat, D))), V1=_special_values(rng, rng.normal(0, scale, (n_treat, D))),
         V0=_special_values(rng, rng.normal(0, scale, (n_treat,))), alpha=float(rng.normal(0, scale)),
-        precision=float(precision if precision is not None else 10 ** rng.uniform(-3, 3)))
+        precision=float(precision if precision is not None else _precision_value(rng)))
 
 
 def make_sdci_theta(rng, n_samp, n_treat, D, lookup, scale=1.0, precision=None):
@@ -113,7 +122,7 @@ def make_sdci_theta(rng, n_samp, n_treat, D, lookup, scale=1.0, precision=None):
 
     return SparseDrugComboInteractionMCMCSample(
         W=_special_values(rng, rng.normal(0, scale, (n_samp, D))), V2=_special_values(rng, rng.normal(0, scale, (n_treat, D))),
-        precision=float(precision if precision is not None else 10 ** rng.uniform(-3, 3)),
+        precision=float(precision if precision is not None else _precision_value(rng)),
         single_effect_lookup=lookup)
 
 
@@ -205,13 +214,13 @@ def screen_file_digest(path):
 # fault `leftover.*`: the output path of a step is not always free.  An earlier attempt of the same step (killed, or run
 # with other inputs before a parameter was corrected) may have left an empty file, a truncated / garbage file or a
 # complete but STALE result there.  A step must produce its own output regardless.
-LEFTOVERS = dict(rnd=None, rate=0.12, seen={}, fired={})
+LEFTOVERS = dict(rnd=None, rate=0.12, seen={}, fired={}, transient_rate=0.1)
 
 
 def arm_leftovers(seed):
     import random as _random
 
-    LEFTOVERS.update(rnd=_random.Random(h64("leftover", seed)), seen={}, fired={})
+    LEFTOVERS.update(rnd=_random.Random(h64("leftover", seed)), seen={}, fired={}, on_rerun=[])
 
 
 def _leftover(out_path, kind):
@@ -234,13 +243,37 @@ def _produced(out_path, kind):
     LEFTOVERS["seen"].setdefault(kind, []).append(out_path)
 
 
+def _cli(name, argv, entropy, kind):
+    """Run one CLI step as a simulated process.  fault transient.h5.open: in one step out of ten, one of its first file
+    opens fails once (EAGAIN: the lock is still held by the job that wrote the file).  The process may die -- the step is
+    then simply run again, as a workflow engine would -- or cope; its output is judged by the caller as always."""
+    rnd = LEFTOVERS["rnd"]
+    if rnd is None or kind == "train" or launch.FaultPoints.active or rnd.random() >= LEFTOVERS["transient_rate"]:
+        return launch.run_cli(name, argv, entropy=entropy)
+    fpts = launch.FaultPoints({"h5.open": rnd.randint(1, 5)})
+    try:
+        with fpts:
+            launch.run_cli(name, argv, entropy=entropy)
+    except HarnessError:
+        raise
+    except Exception:
+        if not fpts.fired:
+            raise
+        LEFTOVERS["fired"]["transient.step-died-and-was-rerun"] = LEFTOVERS["fired"].get("transient.step-died-and-was-rerun", 0) + 1
+        for cb in LEFTOVERS.get("on_rerun", ()):  # what the dead attempt told the harness's recorders is discarded with it
+            cb()
+        launch.run_cli(name, argv, entropy=entropy)
+    if fpts.fired:
+        LEFTOVERS["fired"]["transient.h5.open"] = LEFTOVERS["fired"].get("transient.h5.open", 0) + 1
+
+
 def p_train(screen_path, out_path, *, model, model_params, n_chains, chain_index, n_samples, n_burnin, thin, seed, entropy):
     argv = ["--data", screen_path, "--model", model, "--output", out_path, "--n-samples", n_samples,
             "--n-burnin", n_burnin, "--thin", thin, "--n-chains", n_chains, "--chain-index", chain_index, "--seed", seed]
     for k, v in model_params.items():
         argv += ["--model-param", f"{k}={v}"]
     _leftover(out_path, "train")
-    launch.run_cli("train_model", argv, entropy=entropy)
+    _cli("train_model", argv, entropy, "train")
     _produced(out_path, "train")
     return out_path
 
@@ -251,7 +284,7 @@ def p_distance(screen_path, theta_paths, out_path, *, n_chunks, chunk_index, met
     for k, v in (metric_params or {}).items():
         argv += ["--distance-metric-param", f"{k}={v}"]
     _leftover(out_path, "distance")
-    launch.run_cli("calculate_distance_matrix", argv, entropy=entropy)
+    _cli("calculate_distance_matrix", argv, entropy, "distance")
     _produced(out_path, "distance")
     return out_path
 
@@ -267,7 +300,7 @@ def p_scores(screen_path, theta_paths, dist_paths, out_path, *, n_chunks, chunk_
     if seed is not None:
         argv += ["--seed", seed]
     _leftover(out_path, "scores")
-    launch.run_cli("calculate_scores", argv, entropy=entropy)
+    _cli("calculate_scores", argv, entropy, "scores")
     _produced(out_path, "scores")
     return out_path
 
@@ -283,7 +316,7 @@ def p_select(screen_path, score_paths, out_path, *, policy=None, policy_params=N
     if seed is not None:
         argv += ["--seed", seed]
     _leftover(out_path, "select")
-    launch.run_cli("select_next_plate", argv, entropy=entropy)
+    _cli("select_next_plate", argv, entropy, "select")
     _produced(out_path, "select")
     with open(out_path) as f:
         return int(f.read().strip())
@@ -291,7 +324,7 @@ def p_select(screen_path, score_paths, out_path, *, policy=None, policy_params=N
 
 def p_reveal(screen_path, out_path, plate_ids, entropy=0):
     _leftover(out_path, "reveal")
-    launch.run_cli("reveal_plate", ["--screen", screen_path, "--output", out_path, "--plate-id"] + list(plate_ids), entropy=entropy)
+    _cli("reveal_plate", ["--screen", screen_path, "--output", out_path, "--plate-id"] + list(plate_ids), entropy, "reveal")
     _produced(out_path, "reveal")
     return out_path
 
@@ -301,7 +334,7 @@ def p_evaluate(screen_path, theta_paths, out_path, seed=None, entropy=0):
     if seed is not None:
         argv += ["--seed", seed]
     _leftover(out_path, "evaluate")
-    launch.run_cli("evaluate_model", argv, entropy=entropy)
+    _cli("evaluate_model", argv, entropy, "evaluate")
     _produced(out_path, "evaluate")
     return out_path
 
